@@ -199,6 +199,15 @@ def c60Step (_ : Unit) (line : String) : Unit × String :=
       match parseNat p, parseBytes b with
       | some p, some b => (match parseMessage p b with | none => "perr" | some m => "ok " ++ showMsg m)
       | _, _ => "bad-op"
+    | ["phdr2", _, b] =>
+      -- Parse into a re-used Header = a fresh parse (the first parse leaves nothing behind)
+      match parseBytes b with
+      | some b =>
+        (match parseHeader b with
+         | .error .tooShort => "perr-short"
+         | .error _ => "perr-ext"
+         | .ok h => "ok " ++ showHeader h)
+      | none => "bad-op"
     | ["phdr", b] =>
       match parseBytes b with
       | some b =>
